@@ -1,5 +1,8 @@
 """helpers shared by the property modules"""
 
+import contextlib
+
+from vf import harness
 from vf.ceosgen import product
 
 POLS = ["HH", "HV", "VH", "VV"]
@@ -171,3 +174,29 @@ def drop_user_cache(url, images):
         p.unlink(missing_ok=True)
         with contextlib.suppress(OSError):
             p.parent.rmdir()
+
+
+@contextlib.contextmanager
+def open_under_read_fault(files, target, nth, **opts):
+    """the product on vtrace://, opened while the nth read of the file `target` fails once with
+    OSError (a flaky mount, a remote store timing out).  Yields (tree, error, fault consumed); the
+    fault is disarmed before the block runs, so loads inside it read undisturbed.  The contract
+    judged by the callers: such an open may raise that OSError - but a tree that IS returned must
+    be the tree of the files."""
+    from vf import vtrace
+
+    with harness.Materialised(files, "vtrace") as prod:
+        vtrace.STORE.fail_path, vtrace.STORE.fail_reads, vtrace.STORE.fail_skip = target, 1, nth - 1
+        try:
+            tree, err = harness.guard(harness.open_tree, prod.url, **opts)
+        finally:
+            consumed = vtrace.STORE.fail_reads == 0
+            vtrace.STORE.fail_path, vtrace.STORE.fail_reads, vtrace.STORE.fail_skip = None, 0, 0
+        yield tree, err, consumed
+
+
+def judge_fault_error(err, what):
+    """discrepancies for the exception of an open under an injected read fault (OSError is fine)"""
+    if err is None or isinstance(err, OSError) or "injected transient read error" in harness.exc_text(err):
+        return []
+    return [harness.disc("exception", what, "OSError (or the complete tree)", harness.exc_text(err))]
